@@ -187,6 +187,9 @@ func describe(m *bft.Message) string {
 		if m.Qc != nil && len(m.Qc.BlockHash) >= 3 {
 			s += fmt.Sprintf(" blk=%x", m.Qc.BlockHash[:3])
 		}
+		if h.Phase == lib.Phase_PROPOSE || h.Phase == lib.Phase_PRECOMMIT {
+			s += fmt.Sprintf(" rcb=%d", m.RcBuildHeight)
+		}
 		if m.HighQc != nil {
 			s += fmt.Sprintf(" highqc=%x@rh%d/r%d", m.HighQc.BlockHash[:3], m.HighQc.Header.RootHeight, m.HighQc.Header.Round)
 		}
